@@ -74,10 +74,52 @@ CLAIMED["C07"] = {
     "technique": "Coq proof by case analysis of the control step function + correspondence",
 }
 
+CLAIMED["C08"] = {
+    "text": "Theorems for every state of the system model: a tick acts on the bell and the ownership sampled when it "
+            "begins; it strikes exactly when that bell was Wheatley's and the tower's stroke of it equals the row's "
+            "stroke, striking that very bell on that very stroke and nothing else; the row turnover never strikes; "
+            "within a row the place advances by one per tick; ownership equals the backward-looking reading of the "
+            "message history (C20). Tied to the real Bot/Tower by sessions with assignment churn at arbitrary instants "
+            "(also inside waits), with/without --name, humans pulling Wheatley's ropes; oracle from the simulated "
+            "server's own bookkeeping (owner at tick begin, accepted strokes, once per row, completeness).",
+    "design_ref": "DESIGN.md section 3, C08", "note": TB + " 'At the moment of its turn' is read as the instant the "
+            "tick for that place begins (when the code decides).",
+    "technique": "Coq proof (characterisation of the tick's outputs) + correspondence with ground-truth oracle",
+}
+CLAIMED["C16"] = {
+    "text": "Theorems: a composition generator hands out exactly the loaded rows in order and then rounds (all "
+            "compositions and positions); no call from a composition is 'Stand'; opening-row calls are filed under "
+            "'rows before the first change'; a late Go flushes all missed calls (permutation) in chronological order "
+            "(sorted); with calls off make_calls is the identity. Tied to the real constructor and Bot by generated "
+            "payloads served through a fake requests.get, Go at every row 0..6 or up-down-in, calls on/off; oracle "
+            "recomputes rows, call texts, order and instants directly from the payload.",
+    "design_ref": "DESIGN.md section 3, C16", "note": TB + " json.loads / requests are library code outside the model.",
+    "technique": "Coq proof (induction over rows; sortedness/permutation of the flush) + correspondence",
+}
+CLAIMED["C17"] = {
+    "text": "Theorems: the Look-to gate as an iff (stage != 0, stage <= N, opening row as long as the tower) on the "
+            "generator about to be rung; a refused Look to changes nothing and emits nothing; opening-row length = "
+            "max(N, k) for a start row on k bells; a size change recomputes opening row/rounds for the new size and "
+            "discards the queued generator exactly when it does not fit; covers are the opening row's tail. Tied to "
+            "the code by the stage x tower grid, custom start rows shorter/equal/longer, size-change sequences "
+            "between touches and queued generators in server mode.",
+    "design_ref": "DESIGN.md section 3, C17", "note": TB,
+    "technique": "Coq proof (decision rule as iff; list lemmas) + correspondence over the full grid",
+}
+CLAIMED["C20"] = {
+    "text": "Theorem view_refines_spec: for EVERY history of the seven tower messages the dictionary-based view "
+            "(strokes/size, user names, bell holders) equals a dictionary-free backward-looking reading of the "
+            "history; the system model's handlers update the view by exactly that fold; tower-page parsing returns the "
+            "quoted server_ip / TowerNotFoundError. Tied to the real RingingRoomTower by random well- and ill-formed "
+            "histories through the stub client (white-box and via is_bell_assigned_to/get_stroke), start-up order and "
+            "tower id checked on the client log.",
+    "design_ref": "DESIGN.md section 3, C20", "note": TB + " python-socketio itself is replaced by a stub.",
+    "technique": "Coq proof by induction over the history (refinement of association lists to a per-key spec) + correspondence",
+}
+
 _NYI = "check not built yet in this session; planned as a Coq proof (see DESIGN.md section 3)"
 NOT_APPLICABLE = {p: _NYI for p in
-                  ["C08", "C09", "C10", "C11", "C12", "C13", "C14", "C15", "C16",
-                   "C17", "C18", "C19", "C20"]}
+                  ["C09", "C10", "C11", "C12", "C13", "C14", "C15", "C18", "C19"]}
 
 NOTES = ("All checks share harness/check.py. Exit 0 = property held on everything explored; exit 1 + VIOLATION line "
          "= violation or broken tie between model and code; exit 2 + BROKEN-CHECK = our own machinery failed.")
